@@ -20,6 +20,7 @@ import ast
 import os
 
 from .. import translate
+from . import normalize
 
 MDM = "fairlearn/metrics/_make_derived_metric.py"
 
@@ -42,7 +43,7 @@ def lift_init(init):
     if [a.arg for a in init.args.args] != ["self"] or args != ["metric", "transform", "sample_param_names"]:
         raise U(f"__init__ signature {[a.arg for a in init.args.args]} * {args}")
     checks = []
-    none_means_empty = False
+    none_means_empty = spn_stored = False
     sig_var = None
     for s in init.body:
         if isinstance(s, ast.Expr) and isinstance(s.value, ast.Constant):
@@ -70,19 +71,33 @@ def lift_init(init):
             continue
         elif src == "self._sample_param_names = []":
             none_means_empty = True
-        elif isinstance(s, ast.If) and ast.unparse(s.test) == "sample_param_names is not None":
-            if [ast.unparse(x) for x in s.body] != ["self._sample_param_names = sample_param_names"] or s.orelse:
+        elif src == "self._sample_param_names = sample_param_names if sample_param_names is not None else []" \
+                or src == "self._sample_param_names = [] if sample_param_names is None else sample_param_names":
+            none_means_empty = spn_stored = True          # the same default handling in one statement
+        elif isinstance(s, ast.If) and ast.unparse(s.test) == "sample_param_names is None" \
+                and [ast.unparse(x) for x in s.body] == ["self._sample_param_names = []"] \
+                and [ast.unparse(x) for x in s.orelse] == ["self._sample_param_names = sample_param_names"]:
+            none_means_empty = spn_stored = True          # ... or as if/else
+        elif isinstance(s, ast.If) and ast.unparse(s.test) == "sample_param_names is not None" and s.orelse:
+            if [ast.unparse(x) for x in s.body] != ["self._sample_param_names = sample_param_names"] \
+                    or [ast.unparse(x) for x in s.orelse] != ["self._sample_param_names = []"]:
                 raise U("sample_param_names default handling")
+            none_means_empty = spn_stored = True
+        elif isinstance(s, ast.If) and ast.unparse(s.test) == "sample_param_names is not None":
+            if [ast.unparse(x) for x in s.body] != ["self._sample_param_names = sample_param_names"] or s.orelse \
+                    or not none_means_empty:
+                raise U("sample_param_names default handling")
+            spn_stored = True
         else:
             raise U(f"__init__: unknown statement `{src[:80]}`")
     if sorted(checks) != ["callable", "reserved_in_signature", "signature", "transform_option"]:
         raise U(f"__init__ validation steps {checks}")
-    if not none_means_empty:
-        raise U("__init__: sample_param_names=None is not mapped to []")
+    if not none_means_empty or not spn_stored:
+        raise U("__init__: sample_param_names=None is not mapped to [] / the given names are not stored")
     return checks
 
 
-def lift_call(call):
+def lift_call(call, partial_imported=False):
     a = call.args
     if [x.arg for x in a.args] != ["self", "y_true", "y_pred"] or [x.arg for x in a.kwonlyargs] != ["sensitive_features"] \
             or a.kw_defaults != [None] or a.vararg is not None or a.kwarg is None:
@@ -98,11 +113,17 @@ def lift_call(call):
     k, v = (e.id for e in loop.target.elts)
     # roles of the dicts, by use
     role = {}
+    frames = [s.targets[0].id for s in ast.walk(call) if isinstance(s, ast.Assign) and len(s.targets) == 1
+              and isinstance(s.targets[0], ast.Name) and isinstance(s.value, ast.Call) and ast.unparse(s.value.func) == "MetricFrame"]
+    if len(frames) != 1 or sum(1 for n in ast.walk(call) if isinstance(n, ast.Name) and n.id == frames[0]
+                               and not isinstance(n.ctx, ast.Load)) != 1:
+        raise U(f"__call__: expected one local bound (once) to MetricFrame(...), found {frames}")
+    frame = frames[0]
     for n in ast.walk(call):
         if isinstance(n, ast.Call):
             f = ast.unparse(n.func)
             stars = [ast.unparse(kw.value) for kw in n.keywords if kw.arg is None]
-            if f == "functools.partial":
+            if f == "functools.partial" or (f == "partial" and partial_imported):
                 if [ast.unparse(x) for x in n.args] != ["self._metric_fn"] or len(stars) != 1 or len(n.keywords) != 1:
                     raise U("functools.partial is not partial(self._metric_fn, **<dict>)")
                 role[stars[0]] = "bound"
@@ -110,7 +131,7 @@ def lift_call(call):
                 for kw in n.keywords:
                     if kw.arg == "sample_params":
                         role[ast.unparse(kw.value)] = "sample"
-            elif f.startswith("all_metrics.") and stars:
+            elif f.startswith(frame + ".") and stars:
                 for st in stars:
                     if role.setdefault(st, "transform") != "transform":
                         raise U(f"dict {st} is used in two roles")
@@ -159,7 +180,7 @@ def lift_call(call):
 
 @translate.lifter
 def lift(repo):
-    tree = ast.parse(open(os.path.join(repo, MDM)).read())
+    tree = normalize.parse(open(os.path.join(repo, MDM)).read())
     cls = next((n for n in tree.body if isinstance(n, ast.ClassDef) and n.name == "_DerivedMetric"), None)
     if cls is None:
         raise U("_DerivedMetric not found")
@@ -167,7 +188,10 @@ def lift(repo):
     if "__init__" not in fns or "__call__" not in fns:
         raise U("__init__/__call__ not found")
     checks = lift_init(fns["__init__"])
-    chain, default, name_read = lift_call(fns["__call__"])
+    partial_imported = any(isinstance(n, ast.ImportFrom) and n.module == "functools" and n.level == 0
+                           and any(a.name == "partial" and a.asname in (None, "partial") for a in n.names) for n in tree.body) \
+        and not any(isinstance(n, ast.Name) and n.id == "partial" and not isinstance(n.ctx, ast.Load) for n in ast.walk(tree))
+    chain, default, name_read = lift_call(fns["__call__"], partial_imported)
     mk = next((n for n in tree.body if isinstance(n, ast.FunctionDef) and n.name == "make_derived_metric"), None)
     if mk is None:
         raise U("make_derived_metric not found")
